@@ -304,7 +304,8 @@ def replay_empty_de(m):
 
 # ---------------------------------------------------------------------------------------------------- native carriers against ANY column type
 CARRIERS = {"i8": ["TinyInt"], "i16": ["SmallInt"], "i32": ["Int"], "i64": ["BigInt"], "f32": ["Float"], "f64": ["Double"], "bool": ["Boolean"],
-            "value::Counter": ["Counter"], "CqlDate": ["Date"], "CqlTime": ["Time"], "CqlTimestamp": ["Timestamp"], "uuid::Uuid": ["Uuid"], "CqlTimeuuid": ["Timeuuid"]}
+            "value::Counter": ["Counter"], "CqlDate": ["Date"], "CqlTime": ["Time"], "CqlTimestamp": ["Timestamp"], "uuid::Uuid": ["Uuid"], "CqlTimeuuid": ["Timeuuid"],
+            "str": ["Ascii", "Text"], "String": ["Ascii", "Text"]}      # IpAddr / CqlDuration / CqlVarint / CqlDecimal write through builders the models do not cover: engine K's matrix only
 
 
 def carrier_vs_any_column(ctx, core, reg, carrier, accepted):
@@ -323,6 +324,9 @@ def carrier_vs_any_column(ctx, core, reg, carrier, accepted):
     m[r"^CellWriter::<'_>::set_value$"] = set_value
     m[r"^Result::<WrittenCellProof<'_>, CellOverflowError>::unwrap$"] = lambda it, p, c, a: a[0].payloads[0].f[0]
     m[r"mk_typck_err::<"] = sm.m_opaque("typck-error")
+    m[r"^(std::result::)?Result::<.*>::map_err::<"] = lambda it, p, c, a: Enum(a[0].discr, {**a[0].payloads, 1: Tup([Opaque("mapped-error")])}, RESULT, "Result")
+    m[r"^<(std::result::)?Result<.*> as Try>::branch$"] = sm.m_result_branch
+    m[r" as FromResidual<(std::result::)?Result<(std::convert::)?Infallible, .*>>>::from_residual$"] = sm.m_result_from_residual
     m[r"to_be_bytes$"] = sm.m_opaque("big-endian bytes")
     m[r"as_slice$|as_bytes$|(^|::)to_bits$|>::as_ref$"] = sm.m_opaque("bytes of the value")
     m[r"^<[\w:]+ as (Into|From)<.*>>::(into|from)$"] = sm.m_opaque("converted value")
@@ -350,7 +354,7 @@ def carrier_vs_any_column(ctx, core, reg, carrier, accepted):
               bounds=f"carrier {carrier}; the column type is ANY of the ColumnType variants (collections, vectors, tuples, UDTs with arbitrary contents included) x ANY native type, both symbolic: "
                      f"the value is bound iff the column is native {' / '.join(accepted)}; a refusal writes nothing, an acceptance writes exactly one cell",
               backend="BV", assumes="the bytes of the value are opaque (their content is C01's subject); CellWriter::set_value = one cell appended; mk_typck_err opaque", witness=True,
-              outside="the cell's bytes (C01), variable-size carriers (engine K's matrix over native columns)",
+              outside="the cell's bytes (C01), the other variable-size carriers (blob, inet, duration, varint, decimal: engine K's matrix over native columns)",
               replay=lambda m_, short=short, accepted=accepted: replay_row(m_, ct, nt, short, accepted))
 
 
